@@ -68,7 +68,11 @@ func vpC32HexVal(c int) (int, bool) {
 
 func vpC32Cell(t *testing.T, table string, c int, ok bool, format string, a ...any) {
 	t.Helper()
-	vpCase("table/"+table, true, table+":"+strconv.Itoa(c), func() string { return fmt.Sprintf("%s[0x%02x]", table, c) })
+	var sample func() string
+	if c == 'A' { // one representative cell per table in the evidence samples
+		sample = func() string { return fmt.Sprintf("%s[0x%02x 'A'] ok=%v (256 cells enumerated)", table, c, ok) }
+	}
+	vpCase("table/"+table, true, table+":"+strconv.Itoa(c), sample)
 	if !ok {
 		t.Errorf("%s[0x%02x %q]: %s", table, c, rune(c), fmt.Sprintf(format, a...))
 	}
@@ -233,11 +237,11 @@ func TestVP_C32_SmallDomains(t *testing.T) {
 	fatalf := func(f string, a ...any) { t.Errorf(f, a...) }
 	for _, a := range vpC32TChars {
 		tok := string([]byte{a})
-		vpCase("canon/exhaustive-len1", true, tok, func() string { return tok })
+		vpCase("canon/exhaustive-len1", true, tok, nil)
 		vpC32CheckCanon(fatalf, tok)
 		for _, b := range vpC32TChars {
 			tok := string([]byte{a, b})
-			vpCase("canon/exhaustive-len2", true, tok, func() string { return tok })
+			vpCase("canon/exhaustive-len2", true, tok, nil)
 			vpC32CheckCanon(fatalf, tok)
 		}
 	}
@@ -246,7 +250,7 @@ func TestVP_C32_SmallDomains(t *testing.T) {
 	rec = func(prefix []byte, n int) {
 		if n == 0 {
 			tok := string(prefix)
-			vpCase(fmt.Sprintf("canon/exhaustive-len%d-small-alphabet", len(prefix)), true, tok, func() string { return tok })
+			vpCase(fmt.Sprintf("canon/exhaustive-len%d-small-alphabet", len(prefix)), true, tok, nil)
 			vpC32CheckCanon(fatalf, tok)
 			return
 		}
@@ -261,7 +265,7 @@ func TestVP_C32_SmallDomains(t *testing.T) {
 	}
 	for a := 0; a < 256; a++ {
 		s := string([]byte{byte(a)})
-		vpCase("html/exhaustive-len1", true, s, func() string { return fmt.Sprintf("%q", s) })
+		vpCase("html/exhaustive-len1", true, s, nil)
 		if g, w := string(AppendHTMLEscape(nil, s)), html.EscapeString(s); g != w {
 			t.Errorf("AppendHTMLEscape(%q) = %q, html.EscapeString = %q", s, g, w)
 		}
@@ -397,10 +401,6 @@ func TestVP_C32_HTMLEscape(t *testing.T) {
 		}
 		if string(got[len(prefix):]) != want {
 			t.Fatalf("AppendHTMLEscapeBytes(%q) = %q, html.EscapeString = %q", s, got[len(prefix):], want)
-		}
-		// escaping is reversible
-		if back := html.UnescapeString(string(got[len(prefix):])); back != html.UnescapeString(want) {
-			t.Fatalf("AppendHTMLEscape(%q) unescapes to %q", s, back)
 		}
 	})
 }
